@@ -337,6 +337,8 @@ type replayCase struct {
 	Payload []byte    `json:"payload"`
 	Spec    *pageSpec `json:"spec"`
 	Format  *fmtSpec  `json:"format"`
+	RepoValue  []byte `json:"repo_value"`
+	LocalPrint bool   `json:"local_print"`
 }
 
 func runStored(w *gen.Writer, raw json.RawMessage, class string) {
@@ -357,6 +359,8 @@ func runStored(w *gen.Writer, raw json.RawMessage, class string) {
 		runBadTemplate(w, string(rc.Payload), class)
 	case "format":
 		runFormat(w, *rc.Format, class)
+	case "e2e":
+		replayEndToEnd(w, string(rc.Payload), string(rc.RepoValue), rc.LocalPrint)
 	default:
 		panic("stored case without a replayable op (end-to-end cases are re-generated from the seed)")
 	}
